@@ -149,9 +149,7 @@ void exhaustive(const vf::Options& o, vf::Tally& tally)
    tally.notes["zoo"] = "every op with 7-40 operand variants (2 rounds), then PRINT of every pool element as unit/decl/type/expr/stmt";
 }
 
-}   // namespace
-
-int main(int argc, char** argv)
+vf::Hooks<Case> make_hooks(const vf::Options&)
 {
    vf::Hooks<Case> hk;
    hk.generator = [](const vf::Options&) { return case_gen("printer"); };
@@ -160,5 +158,10 @@ int main(int argc, char** argv)
    hk.from_text = [](const std::string& s, Case& c) { return from_text(s, c); };
    hk.sample = sample;
    hk.exhaustive = exhaustive;
-   return vf::drive<Case>(argc, argv, "C18", hk);
+   return hk;
 }
+bool decode(const std::uint8_t* d, std::size_t n, const vf::Options&, Case& c) { return script_from_bytes(d, n, "printer", 0, c); }
+
+}   // namespace
+
+VF_MAIN(Case, "C18", make_hooks, decode)
